@@ -99,6 +99,16 @@ class Cluster:
             with open(p, 'wb') as f:
                 f.write(body('d1').replace(b'\r\n', b'\n'))
 
+    def make_raw_folder(self) -> None:
+        """A maildir folder created by some other program: cur/new/tmp (and
+        the maildirfolder marker) but no dovecot-uidlist."""
+        base = self.worlds[0].user_dir('alice')
+        d = os.path.join(base, '.raw' if self.layout == '++' else 'raw')
+        with fsjail.unjailed():
+            for sub in ('cur', 'new', 'tmp'):
+                os.makedirs(os.path.join(d, sub), exist_ok=True)
+            open(os.path.join(d, 'maildirfolder'), 'w').close()
+
     def cmd(self, i, line, s=None, w=None, need_ok=True):
         w = w or self.worlds[i]
         s = s or self.sessions[i]
@@ -157,7 +167,10 @@ def run_schedule(layout, programs, prefix, deliver=False, pre=None):
     (Execution, info)."""
     n = len(programs)
     cl = Cluster(layout, n)
+    raw = any(b' raw' in ln for pr in programs for ln in pr)
     try:
+        if raw:
+            cl.make_raw_folder()
         key = layout
         initial = _INITIAL.get(key)
         if initial is None:
@@ -181,7 +194,8 @@ def run_schedule(layout, programs, prefix, deliver=False, pre=None):
         }
         info['views'] = [cl.dump(i, names=('INBOX',), status=False)
                          for i in range(n)]
-        info['final'] = cl.dump(n)
+        info['final'] = cl.dump(n, names=('INBOX', 'a', 'raw') if raw
+                                else ('INBOX', 'a'))
         return ex, info
     finally:
         cl.close()
